@@ -36,6 +36,9 @@ def run_check(prop, repo, extra=(), timeout=900):
     return r.returncode, r.stdout.decode()
 
 
+NOT_CLAIMED = {}     # seeded changes kept for the record that the checks deliberately do not flag (reason in meta.json)
+
+
 def main():
     args = [a for a in sys.argv[1:] if not a.startswith("--")]
     with_suite = "--suite" in sys.argv
@@ -45,6 +48,8 @@ def main():
     for p in sorted(glob.glob(os.path.join(HERE, "seeded", "*", "patch.diff"))):
         meta = json.load(open(os.path.join(os.path.dirname(p), "meta.json")))
         items.append(("seeded/" + os.path.basename(os.path.dirname(p)), meta.get("detected_by") or [meta["property"]], p))
+        if meta.get("not_claimed"):
+            NOT_CLAIMED[items[-1][0]] = meta["not_claimed"]
     if args:
         items = [it for it in items if any(a in it[0] for a in args)]
     failed = 0
@@ -73,6 +78,8 @@ def main():
                                                                      "" if ok else " REPLAY-PROBLEM(rc2=%d same=%s clean_rc=%d)" % (rc2, same, rc3)))
                     if not ok:
                         failed += 1
+                elif name in NOT_CLAIMED:
+                    caught.append("%s:NOT-CLAIMED(quiet,rc=%d)" % (prop, rc))
                 else:
                     caught.append("%s:MISSED(rc=%d)" % (prop, rc))
                     failed += 1
@@ -80,7 +87,7 @@ def main():
             if "--record" in sys.argv and name.startswith("seeded/"):
                 mp = os.path.join(os.path.dirname(patch), "meta.json")
                 meta = json.load(open(mp))
-                meta["detection"] = {"quick_tier": caught, "all_caught": not any("MISSED" in c or "PROBLEM" in c for c in caught)}
+                meta["detection"] = {"quick_tier": caught, "all_caught": not any("MISSED" in c or "PROBLEM" in c or "NOT-CLAIMED" in c for c in caught)}
                 json.dump(meta, open(mp, "w"), indent=1)
         finally:
             shutil.rmtree(d, ignore_errors=True)
